@@ -130,7 +130,10 @@ pub fn plan(id: &str) -> Option<Plan> {
             rule: "scenario = time limiter (fixed or per-request timeout of 1/5/10/50ms, cancel or detach mode) + 1-6 concurrent calls with inner latency 0, T-1ms, T, T+1ms, 3T, never, random, ok/err; oracle compares the virtual instant and value of the outer result and the fate of the inner call with the script; non-trivial iff >=1 timeout and >=1 latency within 1ms of its timeout; distinct = (poll trace, resolution instants, outcomes, mode) signature",
             assumptions: BASE_ASSUMPTIONS.to_vec(),
             floor: 50,
-            engines: vec![Engine { name: "sim", salt: 1, quick: 6000, thorough: 2_000_000, serial: false, run: Box::new(|s, t| c06::scenario(s, t)) }],
+            engines: vec![
+                Engine { name: "sim", salt: 1, quick: 6000, thorough: 2_000_000, serial: false, run: Box::new(|s, t| c06::scenario(s, t)) },
+                Engine { name: "stress-busy-inner", salt: 2, quick: 8, thorough: 64, serial: false, run: Box::new(|s, _| c06::busy_inner(s)) },
+            ],
             extra: None,
         },
         "C10" => Plan {
